@@ -16,6 +16,70 @@ class Spec:
         self.W = W
         self.np = W.np
 
+    # ------------------------------------------------------------ logic usable in both worlds
+    def eqv(self, a, b, tol=1e-9):
+        if self.W.symbolic:
+            return a == b
+        return abs(a - b) <= tol * max(1.0, abs(a), abs(b))
+
+    def And(self, *xs):
+        if self.W.symbolic:
+            from qverif.symtwin import scalar as SC
+            out = True
+            for x in xs:
+                out = SC.band(out, x)
+            return out
+        return all(bool(x) for x in xs)
+
+    def Or(self, *xs):
+        if self.W.symbolic:
+            from qverif.symtwin import scalar as SC
+            out = False
+            for x in xs:
+                out = SC.bor(out, x)
+            return out
+        return any(bool(x) for x in xs)
+
+    def Not(self, x):
+        if self.W.symbolic:
+            from qverif.symtwin import scalar as SC
+            return SC.bnot(x)
+        return not bool(x)
+
+    def Iff(self, a, b):
+        return self.Or(self.And(a, b), self.And(self.Not(a), self.Not(b)))
+
+    def Implies(self, a, b):
+        return self.Or(self.Not(a), b)
+
+    def abs(self, x):
+        if self.W.symbolic:
+            from qverif.symtwin import scalar as SC
+            return SC.sabs(x)
+        return abs(x)
+
+    def re(self, x):
+        return x.real
+
+    def im(self, x):
+        return x.imag
+
+    def flat(self, a):
+        """list of the scalar entries of an array (row-major)"""
+        if self.W.symbolic:
+            a = self.np.asarray(a)
+            return a.a.reshape(-1).tolist()
+        import numpy
+        return numpy.asarray(a).reshape(-1).tolist()
+
+    def truncated(self, out, exact, eps):
+        """entrywise:  out == exact  or  (out == 0 and |exact| < eps)   -- the documented truncation rule"""
+        conds = []
+        for o, x in zip(self.flat(out), self.flat(exact)):
+            xr = x.real if hasattr(x, "real") else x
+            conds.append(self.Or(self.eqv(o, xr), self.And(self.eqv(o, 0), self.abs(xr) < eps)))
+        return self.And(*conds)
+
     # ------------------------------------------------------------ bases
     def dense(self, m):
         return m.toarray() if hasattr(m, "toarray") and not isinstance(m, self.np.ndarray) else m
